@@ -55,12 +55,21 @@ type rsim struct {
 	ids      []string
 	w        []uint64
 	weighted bool
+	twice    int    // voter listed twice in the weight distribution (-1: none); its parts sum to its weight
+	part     uint64 // weight of the first listing
 }
 
 func (s *rsim) newRound() *rround {
-	iw := make([]fg.IDWeight[string], len(s.ids))
+	iw := make([]fg.IDWeight[string], 0, len(s.ids)+1)
 	for i := range s.ids {
-		iw[i] = fg.IDWeight[string]{ID: s.ids[i], Weight: s.w[i]}
+		if i == s.twice {
+			iw = append(iw, fg.IDWeight[string]{ID: s.ids[i], Weight: s.part})
+			continue
+		}
+		iw = append(iw, fg.IDWeight[string]{ID: s.ids[i], Weight: s.w[i]})
+	}
+	if s.twice >= 0 {
+		iw = append(iw, fg.IDWeight[string]{ID: s.ids[s.twice], Weight: s.w[s.twice] - s.part})
 	}
 	// the voter set is handed over in an order unrelated to the id order
 	vs := fg.NewVoterSet(iw)
@@ -260,6 +269,14 @@ func runRound(k *kernel.K) {
 			w = uint64(1 + k.Choose(5, "weight"))
 		}
 		s.w = append(s.w, w)
+	}
+	s.twice = -1
+	if s.weighted && k.Bool(1, 3, "listed-twice") {
+		// the weight distribution names one voter twice; the definitions are over the summed weights
+		if v := k.Choose(n, "listed-twice-voter"); s.w[v] >= 2 {
+			s.twice, s.part = v, 1+uint64(k.Choose(int(s.w[v]-1), "first-part"))
+			k.Probe("voter-listed-twice")
+		}
 	}
 	// --- block tree
 	nb := k.Range(1, 8, "blocks")
